@@ -1409,7 +1409,7 @@ type leakResult struct {
 
 func runLeakCase(c *checkCtx, cs leakCase) (res leakResult) {
 	lay := leakLayouts[cs.Layout]
-	p, err := newSessionPair(pairOpt{memfd: cs.Memfd, queueCap: cs.QueueCap, bufCap: lay.bufCap, sizes: smallSizes(lay.sizes...)})
+	p, err := newSessionPair(pairOpt{memfd: cs.Memfd, queueCap: cs.QueueCap, bufCap: lay.bufCap, sizes: smallSizes(lay.sizes...), initTO: 60 * time.Second})
 	if err != nil {
 		res.discarded = "session pair: " + err.Error()
 		return
@@ -1659,7 +1659,7 @@ func checkLeak(c *checkCtx) {
 		"is legitimately held until that end is closed")
 	c.assume("client and server live in one process and share one bufferManager object and one event loop; the child-process peer variant is not part of this module")
 	c.assume("a history in which a session died or an allocator ABA suspect (known finding F1) coincided with a discrepancy is discarded as inconclusive")
-	n := c.pick(360, 7200)
+	n := c.pick(300, 6000)
 	var replay *leakCase
 	if c.tier == "replay" {
 		// ./run.sh C09 replay <file>: the recorded case is run 20 times (single-mode histories reproduce up to event-loop timing)
